@@ -380,6 +380,23 @@ def table_check(prop, tier, replay):
     fut.result()
     for r in fam.values():
         ck.cov["samples"] += sample_lines(r["file"])
+    if prop == "C13":
+        # which backend calls were made to fail in this run: (call kind, ordinal of the call within its hand)
+        import re
+        pts, n = set(), 0
+        rx = re.compile(r'"ev":"spy","a":\{.*?"kind":"(\w+)".*?"gc":(\d+).*?\},"res":"fail"')
+        for r in fam.values():
+            with open(r["file"]) as f:
+                for l in f:
+                    if '"ev":"spy"' in l[:60]:
+                        m = rx.search(l[:600])
+                        if m:
+                            n += 1
+                            pts.add((m.group(1), int(m.group(2))))
+        ck.cov["faults_injected"] = n
+        ck.cov["distinct_fault_points"] = len(pts)
+        ck.cov["fault_kinds"] = sorted(set(k for k, _ in pts))
+        ck.cov["fault_rule"] = "a fault point is (backend call kind, ordinal of the call within its hand); every injected failure is one recorded spy line with res=fail"
     ck.assumptions = ["sequential driver: one external call at a time, the engine's own goroutines are the only concurrency (C16 covers concurrent callers)",
                       "scenario pools are seeded random (VERIF_SEED) over seat counts 2..10, three modes, ante / dealer-blind / no-SB structures, stacked and shuffled decks",
                       "known findings are matched by exact signatures (known_findings.json)"]
